@@ -17,7 +17,7 @@ the real `VerifyBasicBlockFilter` on that filter and the block at height `h`
 (run by the harness), `getBlock h` whether the block can be fetched.
 
 Go `range` over a map: the order of `Net.peers` is the iteration order used by
-the mismatch test (only the zero-hash sentinel makes it matter), `Net.pick`
+the baseline test of `resolveConflict` (only its zero-hash sentinel makes it matter), `Net.pick`
 selects which of the surviving peers the "longest chain" loop meets first.  The
 theorems quantify over both; the driver enumerates `pick`.
 -/
@@ -155,17 +155,20 @@ def accept (n : Nat) (msgs : List Msg) : Option Msg :=
 def gather (s : St) (net : Net) (n : Nat) : List (Peer × Msg) :=
   (net.peers.filter (live s)).filterMap (fun p => (accept n (net.resps p)).map (fun m => (p, m)))
 
-/-- `checkForCFHeaderMismatch`, including the zero-hash sentinel -/
-def mismatchGo (i : Nat) (acc : FHash) : List (Peer × Msg) → Bool
+/-- `checkForCFHeaderMismatch`: the first value seen is remembered (`none` =
+nothing seen yet; since the repair of finding `zero-hash-sentinel` this is no
+longer encoded as the all-zero hash), any later different value is a mismatch -/
+def mismatchGo (i : Nat) (acc : Option FHash) : List (Peer × Msg) → Bool
   | [] => false
   | pm :: r =>
     match pm.2.hashes[i]? with
     | none => mismatchGo i acc r
     | some f =>
-      if acc = 0 then mismatchGo i f r
-      else if acc ≠ f then true else mismatchGo i acc r
+      match acc with
+      | none => mismatchGo i (some f) r
+      | some a => if a ≠ f then true else mismatchGo i acc r
 
-def mismatch (hs : List (Peer × Msg)) (i : Nat) : Bool := mismatchGo i 0 hs
+def mismatch (hs : List (Peer × Msg)) (i : Nat) : Bool := mismatchGo i none hs
 
 inductive TOut where
   | nil | errReorg | errNoPeers | errAllBad | errNoMajority | errGetBlock | errPrev | errOther
